@@ -265,6 +265,14 @@ _EXTRA8 = {
     'C19': 'segmentation flags of train_bpe agree; the reducer receives blocking only; the word pattern is written with \\s / \\S only',
     'C20': 'save() truncates its file; character n-grams are windows over all characters of the word; the reducer receives blocking only; each normal form is computed by its namesake',
 }
+_EXTRA9 = {
+    'C11': 'no ASCII-only whitespace classifier in clean / word_boundaries / remove / full / is_whitespace',
+    'C18': 'edited_words reads both word counts on every path from the matching to its return',
+    'C19': 'a bulk pull of the counting workers takes at least one line by construction',
+    'C20': 'byte lengths of the query / the entries only size buffers in get_closest',
+}
+for _k, _v in _EXTRA9.items():
+    _EXTRA8[_k] = (_EXTRA8[_k] + '; ' + _v) if _k in _EXTRA8 else _v
 for _k, _v in _EXTRA8.items():
     _EXTRA7[_k] = (_EXTRA7[_k] + '; ' + _v) if _k in _EXTRA7 else _v
 for _k in ['C%02d' % _i for _i in range(1, 21)]:
